@@ -438,28 +438,28 @@ Qed.
 (* the operations of Model/EditOps.v that read nothing but the layer document (resize_buffer and everything that reads the
    selection mask or the font table have their own definitions on the full document) *)
 Inductive liftable : (E -> res E) -> Prop :=
-| l_set_char x y c : liftable (api_set_char x y c)
-| l_swap_char x1 y1 x2 y2 : liftable (api_swap_char x1 y1 x2 y2)
-| l_add_new_layer n : liftable (api_add_new_layer n)
-| l_remove_layer n : liftable (api_remove_layer n)
-| l_raise_layer n : liftable (api_raise_layer n)
-| l_lower_layer n : liftable (api_lower_layer n)
-| l_duplicate_layer n : liftable (api_duplicate_layer n)
-| l_clear_layer n : liftable (api_clear_layer n)
-| l_toggle_layer_visibility n : liftable (api_toggle_layer_visibility n)
-| l_move_layer x y : liftable (api_move_layer x y)
-| l_set_layer_size n w h : liftable (api_set_layer_size n w h)
-| l_set_selection s : liftable (api_set_selection s)
-| l_deselect : liftable api_deselect
-| l_area_op mutate : stays_inside mutate -> liftable (api_area_op mutate)
-| l_justify_left : liftable api_justify_left
-| l_justify_right : liftable api_justify_right
-| l_center : liftable api_center
-| l_make_layer_transparent : liftable api_make_layer_transparent
-| l_stamp_layer_down : liftable api_stamp_layer_down
-| l_ctl_cur n : liftable (ctl_cur n)
-| l_ctl_mirror b : liftable (ctl_mirror b)
-| l_ctl_caret x y : liftable (ctl_caret x y).
+| lf_set_char x y c : liftable (api_set_char x y c)
+| lf_swap_char x1 y1 x2 y2 : liftable (api_swap_char x1 y1 x2 y2)
+| lf_add_new_layer n : liftable (api_add_new_layer n)
+| lf_remove_layer n : liftable (api_remove_layer n)
+| lf_raise_layer n : liftable (api_raise_layer n)
+| lf_lower_layer n : liftable (api_lower_layer n)
+| lf_duplicate_layer n : liftable (api_duplicate_layer n)
+| lf_clear_layer n : liftable (api_clear_layer n)
+| lf_toggle_layer_visibility n : liftable (api_toggle_layer_visibility n)
+| lf_move_layer x y : liftable (api_move_layer x y)
+| lf_set_layer_size n w h : liftable (api_set_layer_size n w h)
+| lf_set_selection s : liftable (api_set_selection s)
+| lf_deselect : liftable api_deselect
+| lf_area_op mutate : stays_inside mutate -> liftable (api_area_op mutate)
+| lf_justify_left : liftable api_justify_left
+| lf_justify_right : liftable api_justify_right
+| lf_center : liftable api_center
+| lf_make_layer_transparent : liftable api_make_layer_transparent
+| lf_stamp_layer_down : liftable api_stamp_layer_down
+| lf_ctl_cur n : liftable (ctl_cur n)
+| lf_ctl_mirror b : liftable (ctl_mirror b)
+| lf_ctl_caret x y : liftable (ctl_caret x y).
 
 Lemma liftable_sound f : liftable f -> bsound_edit f.
 Proof.
